@@ -5,6 +5,11 @@ here = os.path.dirname(os.path.abspath(__file__))
 root = os.path.dirname(here)
 claims = json.load(open(os.path.join(here, "claims.json")))
 props = [json.loads(l)["id"] for l in open(os.path.join(root, "properties.jsonl")) if l.strip()]
+import subprocess
+try:
+    hook_commits = [l.split()[0] for l in subprocess.run(["git", "-C", "/repo", "log", "--reverse", "--format=%H %s"], capture_output=True, text=True).stdout.splitlines() if " verif:" in l[:48]]
+except Exception:
+    hook_commits = claims.get("_hook_commits", [])
 checks, na = [], []
 for pid in props:
     c = claims.get(pid, {})
@@ -29,7 +34,7 @@ man = {
         "guard": "verif",
         "enable": "go/packages loads /repo with -tags=verif; the only guarded files are comment-only zz_contracts_verif.go files holding the //@ contracts (no run-time hooks; replays use go test -overlay)",
         "baseline_off_cmd": "cd /repo && GOFLAGS=-mod=mod go test -vet=off -count=1 -timeout 25m ./...",
-        "source_commits": claims.get("_hook_commits", []),
+        "source_commits": hook_commits,
         "add_only": True,
     },
     "engines": [{"name": "gvc", "path": "/verif/cmd/gvc", "serves_properties": [c["property_id"] for c in checks],
